@@ -418,7 +418,7 @@ fn one_plan(plan: &Plan, k: usize, seed: u64, iters: usize, acc: &mut Acc) {
 
 pub fn run(r: &mut Report) {
     let mut rng = Rng::new(r.seed ^ 0xC07);
-    let nplans = if r.quick() { 200 } else { 2000 };
+    let nplans = if r.quick() { 500 } else { 2000 };
     let iters = if r.quick() { 100 } else { 400 };
     let mut items: Vec<(Plan, usize, u64)> = vec![];
     for i in 0..nplans {
